@@ -10,7 +10,7 @@ that struct/union arguments of calls have at least one byte (known finding C20-e
 import ChibiVerif.Lemmas.C20Induction
 
 namespace ChibiVerif.Lemmas.C20
-open ChibiVerif ChibiVerif.Codegen ChibiVerif.Effect ChibiVerif.Asm ChibiVerif.Ast
+open ChibiVerif ChibiVerif.Codegen ChibiVerif.Effect ChibiVerif.Asm ChibiVerif.Ast ChibiVerif.C20Scope
 
 /-- whenever `m` succeeds, `depth` has changed by `d` -/
 def Dep (m : M α) (d : Int) : Prop :=
@@ -334,24 +334,6 @@ theorem Dep_funcallArm (env : Env) (i : NInfo) {isAlloca : M Bool} {fn : M Unit}
 
 
 /-! ### every node kind -/
-
-mutual
-/-- every call in the tree passes only struct/union arguments of at least one byte -/
-def okN : Node → Bool
-  | .null | .nullExpr _ | .num .. | .var .. | .vlaPtr .. | .memzero .. | .labelVal .. | .goto_ .. | .asm_ .. => true
-  | .binop _ _ a b | .assign _ a b | .comma _ a b | .logand _ a b | .logor _ a b | .exch _ a b => okN a && okN b
-  | .neg _ a | .addr _ a | .deref _ a | .not _ a | .bitnot _ a | .cast _ a | .ret _ a | .gotoExpr _ a
-  | .exprStmt _ a | .member _ a _ | .case_ _ _ _ _ a | .label _ _ _ a => okN a
-  | .cond _ a b c | .if_ _ a b c | .cas _ a b c => okN a && okN b && okN c
-  | .for_ _ a b c d _ _ => okN a && okN b && okN c && okN d
-  | .do_ _ a b _ _ => okN a && okN b
-  | .switch_ _ a b _ _ _ => okN a && okN b
-  | .block _ l | .stmtExpr _ l => okL l
-  | .funcall _ f _ _ args => okN f && okL args && structArgsOKb args
-def okL : NodeList → Bool
-  | .nil => true
-  | .cons n rest => okN n && okL rest
-end
 
 theorem optGen_dep {n : Node} {g : M Unit} (h : Dep g 0) : ∀ x, optGen n g = some x → Dep x 0 := by
   intro x hx
